@@ -626,6 +626,12 @@ func c13Run(c C13Case, st *kit.Stats) error {
 						break
 					}
 					k := kv.S
+					// a string that the case grew to many megabytes (SETBIT / SETRANGE at a huge offset is legal) is not read
+					// back in full: the host runs under a 4 GiB address-space limit that is the harness' choice, not the emulator's
+					if sl, err := probe.DoT(3*time.Second, "STRLEN", k); err == nil && sl.K == kit.KInt && sl.I > 1<<20 {
+						st.Class("huge-string-not-probed")
+						continue
+					}
 					for _, a := range [][]string{{"HRANDFIELD", k}, {"HRANDFIELD", k, "-3"}, {"HRANDFIELD", k, "3", "WITHVALUES"}, {"HGETALL", k}, {"HSCAN", k, "0"},
 						{"SRANDMEMBER", k}, {"SRANDMEMBER", k, "-3"}, {"SMEMBERS", k}, {"SSCAN", k, "0"}, {"LRANGE", k, "0", "-1"}, {"LINDEX", k, "-1"},
 						{"GETRANGE", k, "0", "-1"}, {"SORT", k, "ALPHA"}, {"DUMP", k}, {"COPY", k, "probe-copy", "REPLACE"}, {"DEL", "probe-copy"}} {
